@@ -23,7 +23,7 @@ KINDS = {0: "all", 1: "turn"}
 # ndarray of np.random.choice to the caller and TeamBattleSim.step tests its truth value
 # (ValueError as soon as two agents are hit at once): findings/C02-binary-attack-ndarray.md.
 # Set to True once that repair is in /repo; the model covers it already.
-MULTI_ATTACK = False
+MULTI_ATTACK = True
 
 
 class Spy:
